@@ -1,7 +1,7 @@
 (** * Composition: whole lines, directive lines, documents (C07) *)
 From Coq Require Import List Ascii String ZArith Bool Lia.
 From Shexer Require Import Lib.PyStr Lib.Dict Gen.Consts Spec.Rdf Spec.TtlSyntax Spec.TtlDomain Model.TtlReader
-  Proofs.TtlProofs Proofs.TtlExpand Proofs.TtlLiteral Proofs.TtlClean Proofs.TtlTokens.
+  Proofs.TtlProofs Proofs.TtlExpand Proofs.TtlLiteral Proofs.TtlClean Proofs.TtlTokens Proofs.TtlScan.
 Import ListNotations.
 Local Open Scope Z_scope.
 
@@ -26,32 +26,22 @@ Section WordsLine.
   Hypothesis Hwords : forallb (fun wg => word_ok (fst wg)) pairs = true.
   Hypothesis Hgaps : pair_gaps_ok pairs = true.
   Hypothesis Hne : pairs <> [].
-  Hypothesis Hnh : Forall word_nohash (map fst pairs).
+  Hypothesis Htr : Forall transparent (map fst pairs).
+
+  Lemma words_ne : map fst pairs <> [].
+  Proof. destruct pairs; [contradiction | discriminate]. Qed.
 
   (** no comment on the line *)
   Lemma clean_words_plain : clean_line (lead ++ render_pairs pairs) = Ok (jwords pairs).
-  Proof.
-    apply clean_no_hash; [apply norm_plain; assumption | apply nohash_joined; exact Hnh].
-  Qed.
+  Proof. apply (clean_joined_plain _ _ words_ne Htr). apply norm_plain; assumption. Qed.
 
-  (** a quote-free comment after quote-free words *)
+  (** a comment, whatever it contains *)
   Lemma clean_words_comment cmt :
     last_gap_empty pairs = false ->
-    Forall (fun wg => quote_free (fst wg) /\ quote_free (snd wg)) pairs -> quote_free cmt ->
     clean_line (lead ++ render_pairs pairs ++ Str "#" ++ cmt) = Ok (jwords pairs).
   Proof.
-    intros Hlast Hq Hqc.
-    destruct (norm_comment lead pairs Hlead Hwords Hgaps Hne cmt Hlast) as (Z & E).
-    apply (clean_comment_noquote _ _ Z E).
-    - apply nohash_joined. exact Hnh.
-    - unfold jwords, quote_free. clear - Hq Hne. induction pairs as [|(w, g) ps IH]; [contradiction|].
-      inversion Hq as [|? ? (Hw & _) Hrest]; subst. cbn [map fst]. rewrite joined_cons.
-      apply Forall_app_intro; [exact Hw|]. destruct ps as [|p2 ps']; [constructor|].
-      unfold rest_of. cbn [map]. constructor; [reflexivity|]. apply IH; [discriminate | exact Hrest].
-    - apply (norm_tail_Forall (fun c => Ascii.eqb ttl_quote c = false) _ _ _ eq_refl) in E; [exact E|].
-      apply Forall_app_intro; [apply hspace_quote_free; exact Hlead|].
-      apply Forall_app_intro; [apply render_pairs_Forall; exact Hq|].
-      apply Forall_app_intro; [repeat constructor | exact Hqc].
+    intros Hlast. destruct (norm_comment lead pairs Hlead Hwords Hgaps Hne cmt Hlast) as (Z & E).
+    apply (clean_joined_comment _ _ Z words_ne Htr E).
   Qed.
 End WordsLine.
 
@@ -77,15 +67,10 @@ Proof.
 Qed.
 
 Lemma process_comment_line lead cmt s :
-  hspace lead = true -> quote_free cmt -> process_line (lead ++ Str "#" ++ cmt) s = ([], Ok s).
+  hspace lead = true -> process_line (lead ++ Str "#" ++ cmt) s = ([], Ok s).
 Proof.
-  intros H Hq. destruct (norm_comment_line lead cmt H) as (Z & E).
-  assert (HZ : quote_free Z).
-  { pose proof (norm_Forall (fun c => Ascii.eqb ttl_quote c = false) (lead ++ Str "#" ++ cmt) eq_refl) as HN.
-    rewrite E in HN. assert (Hall : Forall (fun c => Ascii.eqb ttl_quote c = false) (lead ++ Str "#" ++ cmt)).
-    { apply Forall_app_intro; [apply hspace_quote_free; exact H|]. apply Forall_app_intro; [repeat constructor | exact Hq]. }
-    specialize (HN Hall). inversion HN; assumption. }
-  destruct (clean_comment_line _ Z E (or_introl HZ)) as (r & Er).
+  intros H. destruct (norm_comment_line lead cmt H) as (Z & E).
+  destruct (clean_comment_line _ Z E) as (r & Er).
   apply (process_skip_line _ _ _ Er). right. eauto.
 Qed.
 
@@ -143,20 +128,16 @@ Proof.
 Qed.
 
 Lemma tok_line_facts t : tok_ok_line t = true ->
-  word_ok (render_tok t) = true /\ tshape (render_tok t) /\
-  ((match lex_of t with Some lex => hash_in lex = false | None => True end) -> word_nohash (render_tok t)) /\
-  (lex_of t = None -> quote_free (render_tok t)).
+  word_ok (render_tok t) = true /\ tshape (render_tok t) /\ transparent (render_tok t).
 Proof.
   unfold tok_ok_line. intros H. apply andb_true_iff in H. destruct H as (Hwf & Hws).
   destruct (lex_of t) as [lex|] eqn:El.
   - destruct t as [| |[r|l|lex' sfx|d]| | |]; cbn [lex_of] in El; try discriminate El. inversion El; subst lex'.
     apply negb_true_iff, orb_false_iff in Hws. destruct Hws as (Htab & Hbb).
-    cbn [atok_wf] in Hwf. destruct (lit_tok_facts lex sfx Hwf Htab Hbb) as (A & B & C).
-    cbn [render_tok]. split; [exact A|]. split; [exact B|]. split; [|cbn [lex_of]; intros Hd; discriminate Hd].
-    intros Hh. apply C. unfold hash_in in Hh. apply orb_false_iff in Hh. apply Hh.
-  - destruct (nonlit_solid t Hwf El) as (Hs & Hne & Hf & Hsh).
-    split; [apply solid_word_ok; assumption|]. split; [exact Hsh|].
-    split; [intros _; apply solid_word_nohash; assumption | intros _; apply solid_quote_free; assumption].
+    cbn [atok_wf] in Hwf. destruct (lit_tok_facts lex sfx Hwf Htab Hbb) as (A & B & _).
+    cbn [render_tok]. split; [exact A|]. split; [exact B | apply lit_transparent; exact Hwf].
+  - pose proof (nonlit_solid t Hwf El) as Hst. destruct Hst as (Hs & Hne & Hf & Hsh).
+    split; [apply solid_word_ok; assumption|]. split; [exact Hsh | apply solid3_transparent; assumption].
 Qed.
 
 (** ** a statement line *)
@@ -195,21 +176,6 @@ Qed.
 Lemma quote_free_of t : contains (Str """") t = false -> quote_free t.
 Proof. apply contains_single_false. Qed.
 
-Lemma lexes_none ts : lexes ts = [] -> Forall (fun t => lex_of t = None) ts.
-Proof.
-  induction ts as [|t ts IH]; intros H; [constructor|]. cbn [lexes] in H.
-  destruct (lex_of t) eqn:E; [discriminate|]. constructor; [exact E | apply IH; exact H].
-Qed.
-
-Lemma lexes_hash ts : existsb hash_in (lexes ts) = false ->
-  Forall (fun t => match lex_of t with Some lex => hash_in lex = false | None => True end) ts.
-Proof.
-  induction ts as [|t ts IH]; intros H; [constructor|]. cbn [lexes] in H.
-  destruct (lex_of t) eqn:E.
-  - cbn [existsb] in H. apply orb_false_iff in H. destruct H as (H1 & H2). constructor; [rewrite E; exact H1 | apply IH; exact H2].
-  - constructor; [rewrite E; exact I | apply IH; exact H].
-Qed.
-
 Lemma gaps_hspace : forall gs cmt, gaps_ok gs cmt = true -> Forall (fun g => hspace g = true) gs.
 Proof.
   induction gs as [|g gs IH]; intros cmt H; [constructor|].
@@ -233,19 +199,17 @@ Qed.
 
 Lemma process_token_line lead toks cmt s :
   toks <> [] -> line_wf (LToks lead toks cmt) = true -> forallb tok_ok_line (map fst toks) = true ->
-  line_simple (LToks lead toks cmt) = true ->
   process_line (render_line (LToks lead toks cmt)) s =
   machine (map (fun t => vtok (base s) (render_tok t)) (map fst toks)) s.
 Proof.
-  intros Hne Hwf Htok Hsimple.
+  intros Hne Hwf Htok.
   cbn [line_wf] in Hwf. rewrite !andb_true_iff in Hwf. destruct Hwf as ((Hlead & Hgaps) & Hcmt).
   set (pairs := pairs_of toks).
   assert (Hpne : pairs <> []) by (unfold pairs, pairs_of; destruct toks; [contradiction | discriminate]).
   rewrite <- (pairs_gaps toks) in Hgaps. fold pairs in Hgaps.
   destruct (gaps_ok_pairs pairs (is_some cmt) Hgaps) as (Hpg & Hlast).
-  assert (Hfacts : Forall (fun t => word_ok (render_tok t) = true /\ tshape (render_tok t) /\
-             ((match lex_of t with Some lex => hash_in lex = false | None => True end) -> word_nohash (render_tok t)) /\
-             (lex_of t = None -> quote_free (render_tok t))) (map fst toks)).
+  assert (Hfacts : Forall (fun t => word_ok (render_tok t) = true /\ tshape (render_tok t) /\ transparent (render_tok t))
+                          (map fst toks)).
   { apply Forall_forall. intros t Hin. apply tok_line_facts. rewrite forallb_forall in Htok. auto. }
   assert (Hwords : forallb (fun wg => word_ok (fst wg)) pairs = true).
   { unfold pairs, pairs_of. rewrite forallb_forall. intros wg Hin. apply in_map_iff in Hin. destruct Hin as (tg & <- & Hin).
@@ -253,30 +217,15 @@ Proof.
   assert (Hshape : Forall tshape (map fst pairs)).
   { unfold pairs; rewrite (pairs_words toks). apply Forall_forall. intros w Hin. apply in_map_iff in Hin. destruct Hin as (t & <- & Hin).
     rewrite Forall_forall in Hfacts. apply (Hfacts t Hin). }
+  assert (Htr : Forall transparent (map fst pairs)).
+  { unfold pairs; rewrite (pairs_words toks). apply Forall_forall. intros w Hin. apply in_map_iff in Hin. destruct Hin as (t & <- & Hin).
+    rewrite Forall_forall in Hfacts. apply (Hfacts t Hin). }
   (* the cleaned line *)
   assert (Hclean : clean_line (render_line (LToks lead toks cmt)) = Ok (jwords pairs)).
-  { cbn [render_line]. rewrite render_toks_pairs. fold pairs. cbn [line_simple] in Hsimple.
-    destruct (lexes (map fst toks)) as [|l1 ls] eqn:Elex.
-    - (* no string literal on the line *)
-      pose proof (lexes_none _ Elex) as Hnone.
-      assert (Hnh : Forall word_nohash (map fst pairs)).
-      { unfold pairs; rewrite (pairs_words toks). apply Forall_forall. intros w Hin. apply in_map_iff in Hin. destruct Hin as (t & <- & Hin).
-        rewrite Forall_forall in Hfacts, Hnone. destruct (Hfacts t Hin) as (_ & _ & H3 & _). apply H3. rewrite (Hnone t Hin). exact I. }
-      destruct cmt as [c|]; cbn [render_cmt].
-      + apply clean_words_comment; auto.
-        * apply Forall_forall. intros (w, g) Hin. unfold pairs, pairs_of in Hin. apply in_map_iff in Hin.
-          destruct Hin as (tg & E & Hin). inversion E; subst. split.
-          -- rewrite Forall_forall in Hfacts, Hnone. assert (Hin' : In (fst tg) (map fst toks)) by (apply in_map; exact Hin).
-             destruct (Hfacts _ Hin') as (_ & _ & _ & H4). apply H4. apply (Hnone _ Hin').
-          -- apply hspace_quote_free. pose proof (gaps_hspace _ _ Hgaps) as Hh. rewrite Forall_forall in Hh. apply Hh.
-             unfold pairs, pairs_of. rewrite map_map. cbn [snd]. apply (in_map snd) in Hin. exact Hin.
-        * apply quote_free_of. apply negb_true_iff in Hsimple. exact Hsimple.
-      + rewrite app_nil_r. apply clean_words_plain; auto.
-    - apply andb_true_iff in Hsimple. destruct Hsimple as (Hc & Hh). destruct cmt; [discriminate Hc|].
-      cbn [render_cmt]. rewrite app_nil_r. apply clean_words_plain; auto.
-      apply negb_true_iff in Hh. rewrite <- Elex in Hh. pose proof (lexes_hash _ Hh) as Hhh.
-      unfold pairs; rewrite (pairs_words toks). apply Forall_forall. intros w Hin. apply in_map_iff in Hin. destruct Hin as (t & <- & Hin).
-      rewrite Forall_forall in Hfacts, Hhh. destruct (Hfacts t Hin) as (_ & _ & H3 & _). apply H3. apply (Hhh t Hin). }
+  { cbn [render_line]. rewrite render_toks_pairs. fold pairs.
+    destruct cmt as [c|]; cbn [render_cmt].
+    - apply clean_words_comment; auto.
+    - rewrite app_nil_r. apply clean_words_plain; auto. }
   (* dispatch *)
   unfold process_line. rewrite Hclean.
   assert (HJ : exists c0 r, jwords pairs = c0 :: r /\ tok_start c0 = true).
@@ -391,13 +340,12 @@ Proof.
 Qed.
 
 Lemma process_dir_line lead d gaps cmt e s :
-  line_wf (LDir lead d gaps cmt) = true -> dir_wf d = true -> rc_dir d = [] ->
-  line_simple (LDir lead d gaps cmt) = true -> env_match e s ->
+  line_wf (LDir lead d gaps cmt) = true -> dir_wf d = true -> rc_dir d = [] -> env_match e s ->
   exists e' s', sem_dir e d = Some e' /\
                 process_line (render_line (LDir lead d gaps cmt)) s = ([], Ok s') /\
                 env_match e' s' /\ state s' = state s.
 Proof.
-  intros Hwf Hd Hrc Hsimple Hm.
+  intros Hwf Hd Hrc Hm.
   cbn [line_wf] in Hwf. rewrite !andb_true_iff in Hwf. destruct Hwf as (((Hlead & Hlen) & Hgaps) & _).
   apply Nat.eqb_eq in Hlen.
   set (words := directive_words d) in *. set (pairs := combine words gaps).
@@ -410,18 +358,12 @@ Proof.
   assert (Hwords : forallb (fun wg => word_ok (fst wg)) pairs = true).
   { rewrite forallb_forall. intros wg Hin. rewrite Forall_forall in Hfacts.
     destruct (Hfacts (fst wg)) as (A & B & _); [rewrite <- Hpw; apply in_map; exact Hin|]. apply solid_word_ok; assumption. }
-  assert (Hnh : Forall word_nohash (map fst pairs)).
-  { rewrite Hpw. eapply Forall_impl; [|exact Hfacts]. intros w (A & B & C). apply solid_word_nohash; assumption. }
+  assert (Hnh : Forall transparent (map fst pairs)).
+  { rewrite Hpw. eapply Forall_impl; [|exact Hfacts]. intros w (A & B & C). apply solid3_transparent; assumption. }
   assert (Hclean : clean_line (render_line (LDir lead d gaps cmt)) = Ok (joined words)).
   { cbn [render_line]. fold words. rewrite (zip_gaps_combine words gaps Hlen). fold pairs. rewrite <- Hpw. fold (jwords pairs).
-    cbn [line_simple] in Hsimple. destruct cmt as [c|]; cbn [render_cmt].
+    destruct cmt as [c|]; cbn [render_cmt].
     - apply clean_words_comment; auto.
-      + apply Forall_forall. intros (w, g) Hin. split.
-        * rewrite Forall_forall in Hfacts. destruct (Hfacts w) as (A & B & _); [rewrite <- Hpw; apply (in_map fst) in Hin; exact Hin|].
-          apply solid_quote_free; assumption.
-        * apply hspace_quote_free. pose proof (gaps_hspace _ _ Hgaps) as Hh. rewrite Forall_forall in Hh. apply Hh.
-          apply (in_map snd) in Hin. exact Hin.
-      + apply quote_free_of. apply negb_true_iff in Hsimple. exact Hsimple.
     - rewrite app_nil_r. apply clean_words_plain; auto. }
   assert (Hnb : Forall nb_word words).
   { eapply Forall_impl; [|exact Hfacts]. intros w (A & _). apply solid_nb; exact A. }
@@ -469,21 +411,20 @@ Proof.
 Qed.
 
 Definition line_ok (l : line) : bool :=
-  line_wf l && line_simple l && forallb tok_ok_line (line_toks l).
+  line_wf l && forallb tok_ok_line (line_toks l).
 
 Lemma process_toks_line_any lead toks cmt s :
   line_ok (LToks lead toks cmt) = true ->
   process_line (render_line (LToks lead toks cmt)) s =
   machine (map (fun t => vtok (base s) (render_tok t)) (map fst toks)) s.
 Proof.
-  unfold line_ok. rewrite !andb_true_iff. intros ((Hwf & Hsimple) & Htok). cbn [line_toks] in Htok.
+  unfold line_ok. rewrite !andb_true_iff. intros (Hwf & Htok). cbn [line_toks] in Htok.
   destruct toks as [|tg toks'].
   - cbn [map machine render_line List.concat app]. cbn [line_wf] in Hwf. rewrite !andb_true_iff in Hwf.
     destruct Hwf as ((Hlead & _) & _). destruct cmt as [c|]; cbn [render_cmt].
-    + apply process_comment_line; [exact Hlead|]. cbn [line_simple map lexes] in Hsimple.
-      apply quote_free_of. apply negb_true_iff in Hsimple. exact Hsimple.
+    + apply process_comment_line. exact Hlead.
     + rewrite app_nil_r. apply process_blank_line. exact Hlead.
-  - apply process_token_line; [discriminate | assumption | assumption | assumption].
+  - apply process_token_line; [discriminate | assumption | assumption].
 Qed.
 
 Lemma process_token_lines b : forall ls s,
@@ -611,7 +552,7 @@ Proof.
   - cbn [flat_map line_stream app] in H. destruct T; discriminate H.
 Qed.
 
-Definition line_ok0 (l : line) : bool := line_wf l && line_simple l.
+Definition line_ok0 (l : line) : bool := line_wf l.
 
 Lemma Forall_concat_lines (P : atok -> bool) : forall ls,
   Forall (fun t => P t = true) (List.concat (map line_toks ls)) ->
@@ -654,81 +595,6 @@ Qed.
 
 Lemma group_tokens_nonempty g : group_tokens g <> [].
 Proof. discriminate. Qed.
-
-(** the prologue: directive lines (and comment/blank lines) until the directives are used up *)
-Lemma run_doc : forall ls dirs e s gs ts,
-  env_match e s -> state s = WS -> forallb line_ok0 ls = true ->
-  flat_map line_stream ls = map inl dirs ++ map inr (flat_map group_tokens gs) ->
-  forallb dir_wf dirs = true -> forallb group_wf gs = true ->
-  rc_free (rc_doc e (map IDir dirs ++ map IGrp gs)) = true ->
-  sem_from e (map IDir dirs ++ map IGrp gs) = Some ts ->
-  exists s' ts', process_lines (map render_line ls) s = (ts', Ok s') /\
-                 map erase_lex ts' = map erase_lex ts /\ state s' = WS.
-Proof.
-  induction ls as [|l ls IH]; intros dirs e s gs ts Hm Hst Hok Hstream Hdwf Hgwf Hrc Hsem.
-  - destruct dirs as [|d0 dirs]; [|discriminate Hstream].
-    cbn [map app] in *.
-    assert (Hrcg : rc_free (flat_map (rc_group e) gs) = true).
-    { clear - Hrc. induction gs as [|g gs IHg]; [reflexivity|]. cbn [map rc_doc flat_map] in *.
-      apply rc_free_app in Hrc. destruct Hrc as (A & B). rewrite (rc_free_nil _ A). apply IHg. exact B. }
-    destruct (run_groups e s gs [] ts Hm Hst eq_refl Hstream Hgwf Hrcg Hsem) as (s' & ts' & A & B & _ & C). eauto.
-  - destruct dirs as [|d0 dirs].
-    + cbn [map app] in *.
-      assert (Hrcg : rc_free (flat_map (rc_group e) gs) = true).
-      { clear - Hrc. induction gs as [|g gs IHg]; [reflexivity|]. cbn [map rc_doc flat_map] in *.
-        apply rc_free_app in Hrc. destruct Hrc as (A & B). rewrite (rc_free_nil _ A). apply IHg. exact B. }
-      destruct (run_groups e s gs (l :: ls) ts Hm Hst Hok Hstream Hgwf Hrcg Hsem) as (s' & ts' & A & B & _ & C). eauto.
-    + cbn [forallb] in Hok. apply andb_true_iff in Hok. destruct Hok as (Hl & Hok).
-      unfold line_ok0 in Hl. apply andb_true_iff in Hl. destruct Hl as (Hlwf & Hlsimple).
-      cbn [forallb] in Hdwf. apply andb_true_iff in Hdwf. destruct Hdwf as (Hd0 & Hdwf).
-      destruct l as [lead toks cmt|lead d gaps cmt].
-      * (* a comment / blank line inside the prologue *)
-        cbn [flat_map line_stream map app] in Hstream.
-        destruct toks as [|tg toks']; [|discriminate Hstream].
-        cbn [map app] in Hstream.
-        assert (Hskip : process_line (render_line (LToks lead [] cmt)) s = ([], Ok s)).
-        { rewrite (process_toks_line_any lead [] cmt s); [reflexivity|].
-          unfold line_ok. rewrite Hlwf, Hlsimple. reflexivity. }
-        cbn [map process_lines]. rewrite Hskip.
-        destruct (IH (d0 :: dirs) e s gs ts Hm Hst Hok Hstream) as (s' & ts' & A & B & C); auto.
-        { cbn [forallb]. rewrite Hd0. exact Hdwf. }
-        exists s', ts'. rewrite A. auto.
-      * (* the directive line *)
-        cbn [flat_map line_stream map app] in Hstream. injection Hstream as Hd Hstream. subst d0.
-        cbn [map app rc_doc] in Hrc. apply rc_free_app in Hrc. destruct Hrc as (Hrcd & Hrc).
-        destruct (process_dir_line lead d gaps cmt e s Hlwf Hd0 (rc_free_nil _ Hrcd) Hlsimple Hm)
-          as (e' & s1 & Hsd & Hpl & Hm' & Hst').
-        cbn [map app sem_from] in Hsem. rewrite Hsd in Hsem, Hrc.
-        cbn [map process_lines]. rewrite Hpl.
-        destruct (IH dirs e' s1 gs ts Hm' (eq_trans Hst' Hst) Hok Hstream Hdwf Hgwf Hrc Hsem) as (s' & ts' & A & B & C).
-        exists s', ts'. rewrite A. auto.
-Qed.
-
-(** C07 (partial): prologue-form documents laid out on simple lines *)
-Theorem reader_correct_lines ls dirs gs ts :
-  lays_out ls (map IDir dirs ++ map IGrp gs) -> C07_dom ls (map IDir dirs ++ map IGrp gs) = true ->
-  forallb line_simple ls = true ->
-  sem (map IDir dirs ++ map IGrp gs) = Some ts ->
-  exists s' ts', process_lines (map render_line ls) st0 = (ts', Ok s') /\
-                 map erase_lex ts' = map erase_lex ts /\ state s' = WS.
-Proof.
-  intros (Hlwf & Hdwf & Hstream) Hdom Hsimple Hsem.
-  unfold C07_dom, C07_rcs in Hdom.
-  assert (Hrc : rc_free (rc_doc env0 (map IDir dirs ++ map IGrp gs)) = true).
-  { destruct (rc_doc env0 (map IDir dirs ++ map IGrp gs) ++ flat_map rc_line ls) eqn:E; [|discriminate].
-    apply app_eq_nil in E. destruct E as (E & _). rewrite E. reflexivity. }
-  rewrite forallb_app in Hdwf. apply andb_true_iff in Hdwf. destruct Hdwf as (Hd & Hg).
-  apply (run_doc ls dirs env0 st0 gs ts env_match0 eq_refl).
-  - rewrite forallb_forall. intros l Hin. unfold line_ok0. rewrite forallb_forall in Hlwf, Hsimple.
-    rewrite (Hlwf l Hin), (Hsimple l Hin). reflexivity.
-  - rewrite Hstream, flat_map_app. f_equal.
-    + clear. induction dirs as [|d dirs IH]; [reflexivity|]. cbn [map flat_map item_stream app]. rewrite IH. reflexivity.
-    + clear. induction gs as [|g gs IH]; [reflexivity|]. cbn [map flat_map item_stream]. rewrite IH, map_app. reflexivity.
-  - rewrite forallb_forall in Hd |- *. intros d Hin. apply (Hd (IDir d)). apply in_map. exact Hin.
-  - rewrite forallb_forall in Hg |- *. intros g Hin. apply (Hg (IGrp g)). apply in_map. exact Hin.
-  - exact Hrc.
-  - exact Hsem.
-Qed.
 
 (** ** from the text of the document to its lines *)
 
@@ -939,19 +805,6 @@ Proof.
   - inversion Hno as [|? ? H1 H2]; subst. rewrite (split_sepc lf r rs H1 H2). reflexivity.
 Qed.
 
-(** C07 (partial), on the text of the document *)
-Theorem reader_correct ls dirs gs ts :
-  lays_out ls (map IDir dirs ++ map IGrp gs) -> C07_dom ls (map IDir dirs ++ map IGrp gs) = true ->
-  forallb line_simple ls = true ->
-  sem (map IDir dirs ++ map IGrp gs) = Some ts ->
-  exists s' ts', read_ttl (render_doc ls) = (ts', Ok s') /\
-                 map erase_lex ts' = map erase_lex ts /\ state s' = WS.
-Proof.
-  intros Hl Hdom Hsimple Hsem. unfold read_ttl.
-  rewrite (doc_lines_render ls _ st0 Hl).
-  apply (reader_correct_lines ls dirs gs ts Hl Hdom Hsimple Hsem).
-Qed.
-
 (** ** documents with directives between the statement groups *)
 
 Lemma process_lines_app : forall a b s,
@@ -1036,14 +889,14 @@ Proof.
       destruct (split_at_directive ls _ x _ Hstream) as (ls1 & lead & gaps & cmt & ls2 & -> & H1 & H2).
       rewrite forallb_app in Hok. apply andb_true_iff in Hok. destruct Hok as (Hok1 & Hok2).
       cbn [forallb] in Hok2. apply andb_true_iff in Hok2. destruct Hok2 as (Hl & Hok2).
-      unfold line_ok0 in Hl. apply andb_true_iff in Hl. destruct Hl as (Hlwf & Hlsimple).
+      unfold line_ok0 in Hl. pose proof Hl as Hlwf.
       rewrite rc_doc_groups_app in Hrc. apply rc_free_app in Hrc. destruct Hrc as (Hrc0 & Hrc).
       cbn [rc_doc] in Hrc. apply rc_free_app in Hrc. destruct Hrc as (Hrcd & Hrc).
       rewrite sem_from_groups_app in Hsem.
       destruct (sem_from e (map IGrp gs0)) as [ta|] eqn:Ea; [|discriminate Hsem].
       destruct (sem_from e (IDir x :: d)) as [tb|] eqn:Eb; [|discriminate Hsem]. inversion Hsem; subst ts.
       destruct (run_groups e s gs0 ls1 ta Hm Hst Hok1 H1 Hg0 Hrc0 Ea) as (s1 & ts1 & A1 & B1 & Hm1 & C1).
-      destruct (process_dir_line lead x gaps cmt e s1 Hlwf Hi (rc_free_nil _ Hrcd) Hlsimple Hm1)
+      destruct (process_dir_line lead x gaps cmt e s1 Hlwf Hi (rc_free_nil _ Hrcd) Hm1)
         as (e' & s2 & Hsd & Hpl & Hm2 & Hst2).
       cbn [sem_from] in Eb. rewrite Hsd in Eb, Hrc.
       destruct (IH [] ls2 e' s2 tb Hm2 (eq_trans Hst2 C1) Hok2 H2 eq_refl Hdwf Hrc Eb) as (s3 & ts3 & A3 & B3 & C3).
@@ -1058,28 +911,16 @@ Proof.
       * rewrite map_app, <- app_assoc. exact Hsem.
 Qed.
 
-(** C07 (partial) for any well-formed document: only [line_simple] remains *)
-Theorem reader_correct_general ls d ts :
-  lays_out ls d -> C07_dom ls d = true -> forallb line_simple ls = true -> sem d = Some ts ->
+(** C07 on [C07_dom]: every document of the dialect, every layout *)
+Theorem reader_correct ls d ts :
+  lays_out ls d -> C07_dom ls d = true -> sem d = Some ts ->
   exists s' ts', read_ttl (render_doc ls) = (ts', Ok s') /\
                  map erase_lex ts' = map erase_lex ts /\ state s' = WS.
 Proof.
-  intros Hl Hdom Hsimple Hsem. unfold read_ttl. rewrite (doc_lines_render ls d st0 Hl).
+  intros Hl Hdom Hsem. unfold read_ttl. rewrite (doc_lines_render ls d st0 Hl).
   destruct Hl as (Hlwf & Hdwf & Hstream).
   unfold C07_dom, C07_rcs in Hdom.
-  assert (Hrc : rc_free (rc_doc env0 d) = true).
-  { destruct (rc_doc env0 d ++ flat_map rc_line ls) eqn:E; [|discriminate].
-    apply app_eq_nil in E. destruct E as (E & _). rewrite E. reflexivity. }
-  apply (run_doc_gen d [] ls env0 st0 ts env_match0 eq_refl); auto.
-  rewrite forallb_forall. intros l Hin. unfold line_ok0. rewrite forallb_forall in Hlwf, Hsimple.
-  rewrite (Hlwf l Hin), (Hsimple l Hin). reflexivity.
-Qed.
-
-Theorem reader_correct_dom ls d ts :
-  lays_out ls d -> C07_partial_dom ls d = true -> sem d = Some ts ->
-  exists s' ts', read_ttl (render_doc ls) = (ts', Ok s') /\
-                 map erase_lex ts' = map erase_lex ts /\ state s' = WS.
-Proof.
-  intros Hl Hdom Hsem. unfold C07_partial_dom in Hdom. apply andb_true_iff in Hdom. destruct Hdom as (Hd & Hs).
-  apply (reader_correct_general ls d ts Hl Hd Hs Hsem).
+  assert (Hrc : rc_free (rc_doc env0 d) = true) by (destruct (rc_doc env0 d); [reflexivity | discriminate]).
+  destruct (run_doc_gen d [] ls env0 st0 ts env_match0 eq_refl Hlwf Hstream eq_refl Hdwf Hrc Hsem) as (s' & ts' & A & B & C).
+  exists s', ts'. rewrite A. unfold end_check. rewrite C. rewrite andb_false_r. auto.
 Qed.
